@@ -340,6 +340,11 @@ def table_case(run, seed, idx, mods, big=False):
             # monitor-normalisation factors over six decades, some exactly 1
             scale = 10.0 ** r2.uniform(-3, 3, (nscans, nframes))
             scale[r2.random((nscans, nframes)) < 0.2] = 1.0
+        if use_scale and idx % 4 == 3:
+            # normalisation per monitor count (scale = 1/monitor, monitor 1e5..1e8): every scaled intensity sum is far
+            # below 1 - intensities are not counts any more and nothing may assume they are
+            scale = 1.0 / (10.0 ** r2.uniform(5, 8, (nscans, nframes)))
+            run.count("tables_with_per_count_scale")
         flat = bool(r2.random() < 0.3)
         if flat:
             omega, dty = omega.ravel().copy(), dty.ravel().copy()
@@ -488,6 +493,7 @@ def check(run, replay=None):
     run.require_counter("labelling_runs", 500)
     run.require_counter("merged_peaks_checked", 200)
     run.require_counter("tables_without_pairs", 2)
+    run.require_counter("tables_with_per_count_scale", 5)
     for nt in THREADS:
         # a thread count that could not be set (NUMBA_NUM_THREADS too small) leaves the schedule quantifier unexplored
         run.require_counter("labelling_threads_%d" % nt, 50)
